@@ -58,6 +58,7 @@ func checkC13(r *Run) propMeta {
 	}
 	checkWrapper(r, p, "threadSafeDuplex", "Duplex", "ThreadSafeDuplex")
 	checkWrapper(r, p, "threadSafeSimplex", "Simplex", "ThreadSafeSimplex")
+	checkValueReceiverWrites(r, p)
 	r.Floor("C13-R1-self-iteration", 4)
 	r.Floor("C13-R2-native-op", 16)
 	r.Floor("C13-R3-wrapper", 15)
@@ -561,4 +562,68 @@ func checkWrapper(r *Run, p *packages.Package, tname, ifaceName, ctorName string
 			r.Fail("C13-R3-wrapper", ctorName+":fresh-mutex", ctor.Pos(), "the constructor does not allocate a fresh mutex")
 		}
 	}
+}
+
+// checkValueReceiverWrites (R5): the bitmap providers are small structs passed by value that hold a pointer to the
+// real bitmap.  A method with a value receiver that assigns one of the receiver's fields changes only its private
+// copy: the operation silently does nothing for the caller (an And that builds the intersection in a fresh bitmap and
+// stores it with `s.bitmap = …` leaves the receiver unchanged).
+func checkValueReceiverWrites(r *Run, p *packages.Package) {
+	info := p.TypesInfo
+	n := 0
+	for _, f := range p.Syntax {
+		for _, d := range f.Decls {
+			fd, ok := d.(*ast.FuncDecl)
+			if !ok || fd.Body == nil || fd.Recv == nil || len(fd.Recv.List) == 0 || len(fd.Recv.List[0].Names) == 0 {
+				continue
+			}
+			recv := info.Defs[fd.Recv.List[0].Names[0]]
+			if recv == nil {
+				continue
+			}
+			if _, isPtr := recv.Type().(*types.Pointer); isPtr {
+				continue
+			}
+			if _, isStruct := recv.Type().Underlying().(*types.Struct); !isStruct {
+				continue
+			}
+			n++
+			bad := token.NoPos
+			field := ""
+			ast.Inspect(fd.Body, func(x ast.Node) bool {
+				as, ok := x.(*ast.AssignStmt)
+				if !ok {
+					return true
+				}
+				for _, l := range as.Lhs {
+					if sel, ok := ast.Unparen(l).(*ast.SelectorExpr); ok {
+						if id, ok := ast.Unparen(sel.X).(*ast.Ident); ok && info.Uses[id] == recv && bad == token.NoPos {
+							bad, field = as.Pos(), sel.Sel.Name
+						}
+					}
+				}
+				return true
+			})
+			construct := funcDeclName(fd)
+			// a method that returns its (modified) receiver copy is a builder-style method, not a lost write
+			returnsSelf := false
+			ast.Inspect(fd.Body, func(x ast.Node) bool {
+				if ret, ok := x.(*ast.ReturnStmt); ok {
+					for _, e := range ret.Results {
+						if id, ok := ast.Unparen(e).(*ast.Ident); ok && info.Uses[id] == recv {
+							returnsSelf = true
+						}
+					}
+				}
+				return true
+			})
+			if bad != token.NoPos && !returnsSelf {
+				r.Fail("C13-R5-value-receiver-write", construct, bad, "%s has a value receiver and assigns its field %s: only the method's private copy changes, so for the caller the operation does nothing", construct, field)
+			} else {
+				r.Pass("C13-R5-value-receiver-write", construct, fd.Pos(), "no receiver field is assigned through the value receiver")
+			}
+		}
+	}
+	_ = n
+	r.Floor("C13-R5-value-receiver-write", 20)
 }
